@@ -100,8 +100,31 @@ int main(int argc, char** argv) {
 		return "";
 	};
 
+	// a pipeline that is abandoned (a new job arrives): the next single-call hash on the same VM must still honour the single-call
+	// contract, and a pipeline restarted with first() must return the digests of its own inputs (added after seeded change agent5_C13)
+	auto abandoned = [&](int vi, int v2, unsigned c1, unsigned c2, int stage) -> std::string {
+		randomx_vm* vm = w.vms[vi]; if (v2) vm->setFlagV2(); else vm->clearFlagV2();
+		const std::string& a = inputs[0]; const std::string& b = inputs[1 % inputs.size()]; uint8_t tmp[32], out[32], ref[32];
+		first_under(vm, a.data(), a.size(), c1); if (stage >= 1 && stage != 2) next_under(vm, b.data(), b.size(), tmp, c1);
+		if (stage == 2) {   // restart: first(a) first(b) last
+			first_under(vm, b.data(), b.size(), c2); last_under(vm, out, c2); hash_under(vm, b.data(), b.size(), ref, 0x1F80);
+			if (memcmp(out, ref, 32)) return "a pipeline restarted with first() returned a digest that differs from the single-call digest (entry states " + vf::hex64(c1) + "," + vf::hex64(c2) + ")";
+			return "";
+		}
+		const std::string& in = stage == 0 ? b : a; unsigned after;
+		if (portable) { static const int fe[4] = { FE_TONEAREST, FE_DOWNWARD, FE_UPWARD, FE_TOWARDZERO }; fenv_t saved, before, aft; fegetenv(&saved); _mm_setcsr(c2); fesetround(fe[(c2 >> 13) & 3]); fegetenv(&before); c2 = _mm_getcsr();
+			randomx_calculate_hash(vm, in.data(), in.size(), out); after = _mm_getcsr(); fegetenv(&aft); fesetenv(&saved);
+			if (memcmp(&before, &aft, sizeof before)) return "after an abandoned pipeline: fegetenv image after the single-call hash differs from the image on entry (entry MXCSR " + vf::hex64(c2) + ")"; }
+		else after = hash_under(vm, in.data(), in.size(), out, c2);
+		hash_under(vm, in.data(), in.size(), ref, 0x1F80);
+		if (memcmp(out, ref, 32)) return "after an abandoned pipeline: digest of the single-call hash under entry MXCSR " + vf::hex64(c2) + " differs from the digest under the default state";
+		if (after != c2) return "after an abandoned pipeline (opened under MXCSR " + vf::hex64(c1) + "): MXCSR on return from the single-call hash " + vf::hex64(after) + " != MXCSR on entry " + vf::hex64(c2);
+		return "";
+	};
+
 	if (!args.replay.empty()) {
 		vf::Json r = vf::Json::load(args.replay); std::string d;
+		if (r.at("kind").s == "abandoned") { d = abandoned((int)r.at("vm").num(), (int)r.at("v2").num(), (unsigned)r.at("c1").num(), (unsigned)r.at("c2").num(), (int)r.at("stage").num()); printf("replay: %s\n", d.empty() ? "holds" : d.c_str()); return d.empty() ? 0 : 1; }
 		if (r.at("kind").s == "single") { auto in = vf::unhex(r.at("input").s); d = single((int)r.at("vm").num(), (int)r.at("v2").num(), std::string((const char*)in.data(), in.size()), (unsigned)r.at("mxcsr").num()); }
 		else d = piped((int)r.at("vm").num(), (int)r.at("v2").num(), (unsigned)r.at("c1").num(), (unsigned)r.at("c2").num(), (unsigned)r.at("c3").num());
 		if (d.empty() && r.has("k")) {   // not visible in isolation: re-run this shard's cases in the original order on the same VM objects (history-dependent defect)
@@ -136,12 +159,20 @@ int main(int argc, char** argv) {
 			std::string d = piped(vi, v2, c1, c2, c3); R.n["pipelined_batches"]++;
 			if (!d.empty() && R.viol.size() < 3) { vf::Violation v; v.key = "c13:pipelined"; v.what = w.names[vi] + (v2 ? " v2: " : " v1: ") + d; v.replay = rp; R.viol.push_back(v); }
 		}
+		k = 0;
+		for (unsigned c1 : tri) for (unsigned c2 : tri) for (int stage = 0; stage < 3; ++stage) for (int vi = 0; vi < nv; ++vi) for (int v2 = 0; v2 < 2; ++v2, ++k) {
+			if ((int)(k % nsh) != shard) continue;
+			vf::Json rp = vf::Json::obj().set("kind", "abandoned").set("vm", vi).set("cfg", w.names[vi]).set("v2", v2).set("c1", (int)c1).set("c2", (int)c2).set("stage", stage);
+			vf::set_current(rp.dump());
+			std::string d = abandoned(vi, v2, c1, c2, stage); R.n["abandoned_pipelines"]++;
+			if (!d.empty() && R.viol.size() < 3) { vf::Violation v; v.key = "c13:abandoned"; v.what = w.names[vi] + (v2 ? " v2: " : " v1: ") + d; v.replay = rp; R.viol.push_back(v); }
+		}
 		return R;
 	}, true, 3600);
 	vf::Evidence ev; ev.level = "exploration";
-	ev.coverage.set("evaluations", (unsigned long long)(total.n["single_calls"] + total.n["pipelined_batches"])).set("distinct_nontrivial", (unsigned long long)(states.size() * nv * 2))
+	ev.coverage.set("evaluations", (unsigned long long)(total.n["single_calls"] + total.n["pipelined_batches"] + total.n["abandoned_pipelines"])).set("distinct_nontrivial", (unsigned long long)(states.size() * nv * 2))
 		.set("exhaustive", !total.incomplete).set("mxcsr_states", (unsigned long long)states.size()).set("inputs", (unsigned long long)inputs.size())
-		.set("rule", std::string("profile ") + RX_PROFILE + (portable ? " portable build" : "") + ": entry MXCSR states (" + (th && !portable ? "ALL 2^16 values" : "4 rounding modes x FTZ x DAZ x exception masks all/none x flags all/none") + ") x every VM configuration x {v1,v2} x inputs chosen by a pre-pass so that the last program leaves a default / a non-default rounding mode: digest == digest under the default state and MXCSR on return == MXCSR on entry (all bits); pipelined first/next/last with the entry state set independently before each of the three calls (all triples of a reduced state set): digests == single-call digests. distinct = (state, configuration, version) combinations")
+		.set("rule", std::string("profile ") + RX_PROFILE + (portable ? " portable build" : "") + ": entry MXCSR states (" + (th && !portable ? "ALL 2^16 values" : "4 rounding modes x FTZ x DAZ x exception masks all/none x flags all/none") + ") x every VM configuration x {v1,v2} x inputs chosen by a pre-pass so that the last program leaves a default / a non-default rounding mode: digest == digest under the default state and MXCSR on return == MXCSR on entry (all bits); pipelined first/next/last with the entry state set independently before each of the three calls (all triples of a reduced state set): digests == single-call digests; abandoned pipelines (first | first,next, then a single-call hash; first, first, last) under all pairs of the reduced state set: the single call keeps its contract (digest, MXCSR on return == on entry) and a restarted pipeline returns the digest of its own input. distinct = (state, configuration, version) combinations")
 		;
 	ev.assumptions = { "x86-64 SSE: MXCSR is the FP control/status word used by the library; the x87 control word is not touched by the default build" };
 	return vf::finish(args, total, ev, true, true);
